@@ -370,11 +370,20 @@ func (ms *Modules) Process() []error {
 		return errorSort(errs)
 	}
 
-	for _, m := range ms.Modules {
-		errs = append(errs, ToEntry(m).GetErrors()...)
-	}
-	for _, m := range ms.SubModules {
-		errs = append(errs, ToEntry(m).GetErrors()...)
+	// Convert the modules in a fixed order.  When two loaded revisions of
+	// a module include the same submodule, its nodes are merged into the
+	// revision that is converted first (see mergedSubmodule); under the
+	// sorted order that is the latest revision, filed under the bare name,
+	// whatever order the map is visited in.
+	for _, set := range []map[string]*Module{ms.Modules, ms.SubModules} {
+		names := make([]string, 0, len(set))
+		for name := range set {
+			names = append(names, name)
+		}
+		sort.Strings(names)
+		for _, name := range names {
+			errs = append(errs, ToEntry(set[name]).GetErrors()...)
+		}
 	}
 
 	if len(errs) > 0 {
